@@ -49,6 +49,8 @@ type caseIn struct {
 	CloseFirst  []int  `json:"close_first,omitempty"` // ordinals of streams closed before the connection
 	Overlap     []int  `json:"overlap,omitempty"`     // ordinals of streams closed by OverlapN overlapping Close calls (the broker withholds the first close response until all calls were issued)
 	OverlapN    int    `json:"overlap_n,omitempty"`
+	PendingReply bool  `json:"pending_reply,omitempty"` // SendCallAndWaitReplayCall already ACKED and waiting for its reply, ReceiveCall and ReceiveReplyCall consumers waiting - all with contexts WITHOUT deadline
+	Queued      int    `json:"queued,omitempty"`        // every downstream holds that many unread metadata items and unread chunks at (stream / connection) Close; afterwards ReadMetadata / ReadDataPoints are called 16 times each
 	CallFlood   int    `json:"call_flood,omitempty"` // that many DownstreamCall and UpstreamCallAck messages arrive while Close waits behind a pending SendBaseTime (no answer, 300 ms context)
 	Buffered    []int  `json:"buffered,omitempty"`    // ordinals of streams with unflushed data / unacknowledged reads at Close
 	PendingRead bool   `json:"pending_read,omitempty"`
@@ -241,6 +243,7 @@ func runCase(c *caseIn) (res resultOut) {
 		}
 		ev(fmt.Sprintf("EStart %d %s", l, kd), fmt.Sprintf("EWake %d", l), fmt.Sprintf("EResp %d", l))
 	}
+	queuedStreams := map[int]bool{}
 	var closedFirst func(i int) bool
 	isIn := func(l []int, i int) bool {
 		for _, x := range l {
@@ -276,6 +279,29 @@ func runCase(c *caseIn) (res resultOut) {
 			})
 		}
 		ev(fmt.Sprintf("EWrite %d", s.label))
+	}
+	// unread items left in the read queues of every downstream
+	if c.Queued > 0 && !outage {
+		for i, s := range streams {
+			if !s.down || isIn(c.Buffered, i) {
+				continue
+			}
+			cur := cb.CurrentEstablished()
+			for k := 0; k < c.Queued; k++ {
+				seq++
+				cb.SendChunk(cur, s.label, seq)
+				cb.SendMetadata(cur, s.label, seq)
+			}
+			s := s
+			if !broker.WaitFor(2*time.Second, func() bool {
+				ch, md := iscp.VerifDownstreamQueued(s.dn)
+				return ch >= c.Queued && md >= c.Queued
+			}) {
+				res.Harness = "the items sent by the broker were not queued in the downstream"
+				return
+			}
+			queuedStreams[s.label] = true
+		}
 	}
 	// streams closed first
 	for i, s := range streams {
@@ -353,7 +379,7 @@ func runCase(c *caseIn) (res resultOut) {
 		ch          chan int
 	}
 	var pends []pend
-	if c.PendingRead {
+	if c.PendingRead && c.Queued == 0 {
 		for i, s := range streams {
 			if s.down && !closedFirst(i) && !isIn(c.Buffered, i) {
 				p := pend{12, s.label, make(chan int, 1)}
@@ -396,6 +422,38 @@ func runCase(c *caseIn) (res resultOut) {
 		pends = append(pends, p)
 		ev(fmt.Sprintf("EStart %d KCall", l), fmt.Sprintf("EWake %d", l))
 		res.Evs = append(res.Evs, fmt.Sprintf("@fail %d", l))
+	}
+	if c.PendingReply && !outage {
+		cb.NoAnswer("call", false)
+		mk := func(api int, f func() error) {
+			p := pend{api, -1, make(chan int, 1)}
+			go func() {
+				defer func() {
+					if x := recover(); x != nil {
+						p.ch <- 8
+					}
+				}()
+				p.ch <- classify(f())
+			}()
+			pends = append(pends, p)
+		}
+		// no deadline anywhere: only Close can end these waits
+		mk(5, func() error {
+			_, err := conn.SendCallAndWaitReplayCall(context.Background(), &iscp.UpstreamCall{DestinationNodeID: "d", Name: "cwait", Type: "t"})
+			return err
+		})
+		mk(6, func() error { _, err := conn.ReceiveCall(context.Background()); return err })
+		mk(7, func() error { _, err := conn.ReceiveReplyCall(context.Background()); return err })
+		from := len(cb.Log())
+		broker.WaitFor(time.Second, func() bool {
+			for _, x := range cb.Log()[from:] {
+				if x.Kind == "call" {
+					return true
+				}
+			}
+			return false
+		})
+		time.Sleep(15 * time.Millisecond) // the broker's ack has arrived: the call is in its reply-wait phase
 	}
 	time.Sleep(2 * time.Millisecond)
 
@@ -686,6 +744,30 @@ func runCase(c *caseIn) (res resultOut) {
 			res.StreamMatrix = append(res.StreamMatrix, [3]int{s.label, a, cl})
 		}
 	}
+	// unread items were queued at Close: every later read must fail, again and again
+	for _, s := range streams {
+		if !queuedStreams[s.label] {
+			continue
+		}
+		s := s
+		for k := 0; k < 16; k++ {
+			for _, a := range []int{13, 12} {
+				a := a
+				cl := guarded(2*time.Second, func() error {
+					ctx, cancel := short()
+					defer cancel()
+					var err error
+					if a == 13 {
+						_, err = s.dn.ReadMetadata(ctx)
+					} else {
+						_, err = s.dn.ReadDataPoints(ctx)
+					}
+					return err
+				})
+				res.StreamMatrix = append(res.StreamMatrix, [3]int{s.label, a, cl})
+			}
+		}
+	}
 	res.ConnMatrix = append(res.ConnMatrix, [2]int{8, doClose()})
 	time.Sleep(10 * time.Millisecond)
 
@@ -716,6 +798,39 @@ func runCase(c *caseIn) (res resultOut) {
 		}
 	}
 	_ = chunkBefore
+	// nothing of a stream may follow its close request: acks of items handed out after Close
+	closedOn := map[int]map[int]bool{} // session -> labels whose close request was seen
+	anyDownClosed := map[int]bool{}
+	for _, x := range log {
+		switch x.Kind {
+		case "closeup", "closedown":
+			if closedOn[x.Sess] == nil {
+				closedOn[x.Sess] = map[int]bool{}
+			}
+			closedOn[x.Sess][x.Label] = true
+			if x.Kind == "closedown" {
+				anyDownClosed[x.Sess] = true
+			}
+		case "mack":
+			if anyDownClosed[x.Sess] && len(queuedStreams) > 0 && !(discSess >= 0 && x.Sess == discSess && x.N > discN) {
+				res.WireAfter++
+				res.WireAfterWhat = append(res.WireAfterWhat, "mack-after-stream-close")
+			}
+		case "chunk", "dack":
+			lbl := x.Label
+			if x.Kind == "dack" {
+				for _, s := range streams {
+					if _, al, ok := cb.StreamID(s.label); ok && s.down && al == x.Alias {
+						lbl = s.label
+					}
+				}
+			}
+			if lbl >= 0 && closedOn[x.Sess][lbl] && !(discSess >= 0 && x.Sess == discSess && x.N > discN) {
+				res.WireAfter++
+				res.WireAfterWhat = append(res.WireAfterWhat, x.Kind+"-after-stream-close")
+			}
+		}
+	}
 	for _, s := range cb.Sessions() {
 		if len(s.Log()) > 0 && s.Log()[0].At.After(closeReturned) {
 			res.ConnectsAfter++
@@ -971,6 +1086,14 @@ func genRandom(r *rng.R) *caseIn {
 	} else if r.Chance(1, 6) {
 		c.CallFlood = 9 + r.Intn(12)
 	}
+	if c.Outage == "" {
+		if r.Chance(1, 5) {
+			c.PendingReply, c.PendingCall = true, false
+		}
+		if c.Downs > 0 && r.Chance(1, 4) {
+			c.Queued = 8 + r.Intn(9)
+		}
+	}
 	c.FullMatrix = r.Chance(1, 6)
 	return c
 }
@@ -1022,6 +1145,10 @@ func main() {
 				add(&caseIn{Ups: sh[0], Downs: sh[1], Closes: 1, Overlap: []int{0}, OverlapN: 2}, "overlapping-stream-close")
 				add(&caseIn{Ups: sh[0], Downs: sh[1], Closes: 2, Overlap: []int{0, 1, 2, 3}, OverlapN: 3, Buffered: []int{0, 1}}, "overlapping-stream-close")
 				add(&caseIn{Ups: sh[0], Downs: sh[1], Closes: 1, Buffered: []int{0, 1, 2, 3}}, "buffered")
+				if sh[1] > 0 {
+					add(&caseIn{Ups: sh[0], Downs: sh[1], Closes: 1, Queued: 8 + 4*sh[1]}, "unread-items-at-conn-close")
+					add(&caseIn{Ups: sh[0], Downs: sh[1], Closes: 2, Queued: 16, CloseFirst: []int{0, 1, 2, 3}}, "unread-items-at-stream-close")
+				}
 				add(&caseIn{Ups: sh[0], Downs: sh[1], Closes: 1 + sh[1]%2, Concurrent: sh[0] > 1, CallFlood: 9 + 3*(sh[0]+sh[1])}, "call-flood-during-close")
 				add(&caseIn{Ups: sh[0], Downs: sh[1], Closes: 2, Buffered: []int{0, 1, 2, 3}, SlowWriteUs: 3000}, "buffered-slow-write")
 				add(&caseIn{Ups: sh[0], Downs: sh[1], Closes: 1, PendingRead: true, PendingCall: true}, "pending")
@@ -1031,6 +1158,7 @@ func main() {
 			add(&caseIn{Ups: sh[0], Downs: sh[1], Closes: 1 + (sh[0]+sh[1])%2, Concurrent: sh[1] > 1, Outage: "dialok"}, "close-while-dialling")
 			add(&caseIn{Ups: sh[0], Downs: sh[1], Closes: 1, Outage: "guard"}, "close-before-reconnect-guard")
 			add(&caseIn{Ups: sh[0], Downs: sh[1], Closes: 1, PendingCall: true}, "pending")
+			add(&caseIn{Ups: sh[0], Downs: sh[1], Closes: 1 + sh[0]%2, Concurrent: sh[1] > 1, PendingReply: true}, "pending-reply-no-deadline")
 		}
 		add(&caseIn{Closes: 1, CallFlood: 9}, "call-flood-during-close")
 		add(&caseIn{Closes: 2, CallFlood: 20}, "call-flood-during-close")
@@ -1081,6 +1209,13 @@ func main() {
 			// never give up on an unexpected behaviour of the library: it is a direct violation of this case
 			direct = "the history could not be driven to its Close: " + res.Harness
 		}
+		var cleanEvs []string
+		for _, e := range res.Evs {
+			if !strings.HasPrefix(e, "@") {
+				cleanEvs = append(cleanEvs, e)
+			}
+		}
+		res.Evs = cleanEvs
 		var sigs []string
 		if res.Panic {
 			res.Evs = crashEvs(j.c)
